@@ -39,12 +39,12 @@ import (
 type vMCase struct {
 	Kind string `json:"kind"`
 	// law
-	N      int64 `json:"n"`
-	Q      int64 `json:"q"`
-	R      int64 `json:"r"`
-	PQ     int64 `json:"pq"`
+	N      int64           `json:"n"`
+	Q      int64           `json:"q"`
+	R      int64           `json:"r"`
+	PQ     int64           `json:"pq"`
 	Expect json.RawMessage `json:"expect"`
-	Inc    bool  `json:"inc"`
+	Inc    bool            `json:"inc"`
 	// roll
 	N1 int64 `json:"n1"`
 	N2 int64 `json:"n2"`
@@ -399,7 +399,10 @@ func vMHerd(c *vMCase, out *vMOut) {
 	}
 	var started, completed uint64 = uint64(c.Start), uint64(c.Start)
 	var stop int32
-	type read struct{ lo, hi, prev uint64; obs float64 }
+	type read struct {
+		lo, hi, prev uint64
+		obs          float64
+	}
 	reads := make([][]read, c.Readers)
 	gate := make(chan struct{})
 	var wg, rg sync.WaitGroup
